@@ -1228,6 +1228,14 @@ func runCSM(prop string, r *common.Rand, tier string, o *common.Out, replay stri
 			}
 		}
 	}
+	if strings.HasPrefix(replay, "winddown|") {
+		csmWindDown(o, "replay", strings.Split(replay, "|")[1])
+		return
+	}
+	if replay == "" && prop == "C05" {
+		csmWindDown(o, prop+"-wind1", "go")
+		csmWindDown(o, prop+"-wind2", "call")
+	}
 	if strings.HasPrefix(replay, "late|") {
 		p := strings.Split(replay, "|")
 		n, _ := strconv.Atoi(p[2])
